@@ -682,6 +682,12 @@ theorem firstTok_location {e : UExpr} {l : List TT} {n : Nat} (hn : 1 ≤ n) (h 
       simp only [ht, hh, List.head?_cons, beq_iff_eq] at h
       exact ⟨t, rest, rfl, by simp [UExpr.noJoin, ht, h]⟩
 
+theorem UPath.noJoin_first (p : UPath) : p.noJoin.first = p.first := by
+  unfold UPath.noJoin; split <;> rfl
+
+theorem UPath.noJoin_last (p : UPath) : p.noJoin.last = p.last := by
+  unfold UPath.noJoin; split <;> rfl
+
 theorem anchoredNJ_of_derivation {ts : List TT} {o : Oracle} {c c' : Cur} {p : Pat}
     (hts : tokensWf ts = true) (ho : oracleSpansOk ts o = true) (hc : CurOk ts c) (hg : GPat o c p c') :
     AnchoredNJ c p := by
@@ -743,10 +749,10 @@ theorem anchoredNJ_of_derivation {ts : List TT} {o : Oracle} {c c' : Cur} {p : P
   | map => rfl
   | slice => rfl
   | tuple => rfl
-  | struct => rfl
+  | struct => simp [AnchoredNJ, Pat.noJoin, Pat.location, UPath.noJoin_first, UPath.noJoin_last]
   | wildStruct => rfl
-  | unit => rfl
-  | variant => rfl
+  | unit => simp [AnchoredNJ, Pat.noJoin, Pat.location, UPath.noJoin_first, UPath.noJoin_last]
+  | variant => simp [AnchoredNJ, Pat.noJoin, Pat.location, UPath.noJoin_first, UPath.noJoin_last]
   | range => trivial
   | string => rfl
   | simple _ e _ id _ _ he _ _ =>
